@@ -218,15 +218,21 @@ var c04PureAccessors = map[string]bool{
 	"(data.Integer).Int": true,
 }
 
-// c04Reviewed: functions with constructs the relational prover cannot decide; the number of such
-// constructs is frozen so that a newly undecided construct in the same function is still reported.
-// These sites are NOT decided by the checker (see DESIGN.md, C04).
-var c04Reviewed = map[string]struct {
+// c04Reviewed: inequalities the relational prover cannot decide because they rest on data invariants
+// of parser-built values. An allowance is keyed by package and by the *shape* of the inequality
+// (atoms described by type/callee, see an.ShapeOf), not by function name or position, and holds a
+// frozen count: the same construct moved or renamed is still recognised, one more of the same shape
+// in the package is reported. These inequalities are NOT decided by the checker (DESIGN.md, C04).
+var c04Reviewed = map[string]map[string]*struct {
 	n      int
 	reason string
 }{
-	"(data.MappingValues).Get":            {1, "debug-log slice pair[1][1:] needs every stored value string to hold its length byte: an invariant of parser-built MappingValues (ReadI2PString never yields an empty string on the paths that append a pair), not visible to a per-function relational analysis"},
-	"keys_and_cert.buildKeysAndCertBlock": {2, "block[0:len(pub.Bytes())] / block[384-len(sig.Bytes()):] rely on the external go-i2p/crypto key objects returning exactly the size the key certificate declares (checked at run time by Validate through Len(), a different method)"},
+	"data": {
+		"+1*len(data.I2PString) -1 >= 0": {1, "MappingValues.Get's debug-log slice pair[1][1:] needs every stored value string to hold its length byte: an invariant of parser-built MappingValues (ReadI2PString never yields an empty string on the paths that append a pair), not visible to a per-function relational analysis"},
+	},
+	"keys_and_cert": {
+		"-1*len(invoke Bytes()) +384 >= 0": {2, "buildKeysAndCertBlock's block[0:len(pub.Bytes())] / block[384-len(sig.Bytes()):] rely on the external go-i2p/crypto key objects returning exactly the size the key certificate declares (checked at run time by Validate through Len(), a different method)"},
+	},
 }
 
 // keyLikeParam: a parameter whose type comes from outside the library (key objects, signers,
@@ -400,8 +406,13 @@ func C04(p *an.Prog, r *an.Report) {
 	type fnStat struct {
 		total, proved int
 		failures      []string
+		reviewed      []string
 		pos           string
 	}
+	used := map[*struct {
+		n      int
+		reason string
+	}]int{}
 	stats := map[string]*fnStat{}
 	nGoals, nLocal, nCallers := 0, 0, 0
 	for _, s := range sites {
@@ -424,8 +435,14 @@ func C04(p *an.Prog, r *an.Report) {
 				}
 				continue
 			}
+			shape := an.ShapeOf(g.goal)
+			if rv := c04Reviewed[an.ShortPkg(an.FnPkgPath(s.fn))][shape]; rv != nil && used[rv] < rv.n {
+				used[rv]++
+				st.reviewed = append(st.reviewed, fmt.Sprintf("%s %s: %s — reviewed, not decided: %s", p.Pos(s.in.Pos()), s.kind, g.what, rv.reason))
+				continue
+			}
 			ok = false
-			st.failures = append(st.failures, fmt.Sprintf("%s %s: %s not established [%s]", p.Pos(s.in.Pos()), s.kind, g.what, strings.Join(pr.Trail, " <- ")))
+			st.failures = append(st.failures, fmt.Sprintf("%s %s: %s not established [%s] (shape %q)", p.Pos(s.in.Pos()), s.kind, g.what, strings.Join(pr.Trail, " <- "), shape))
 			if debug {
 				fmt.Fprintf(os.Stderr, "UNPROVED %s %s %s: %s  goal %s >= 0\n    %s\n", key, p.Pos(s.in.Pos()), s.kind, g.what, g.goal, strings.Join(pr.Trail, "\n    "))
 			}
@@ -442,15 +459,14 @@ func C04(p *an.Prog, r *an.Report) {
 	for _, k := range keys {
 		st := stats[k]
 		und := st.total - st.proved
-		rev := c04Reviewed[k]
 		switch {
-		case und == 0:
+		case und == 0 && len(st.reviewed) == 0:
 			r.Check(true, "C04.B1", k+"/bounds", st.pos, fmt.Sprintf("all %d index/slice/make/shift/external-length constructs are within bounds on every path (guards, callee post-conditions, caller pre-conditions)", st.total))
-		case und <= rev.n:
-			o := r.Ob("C04.B1r", k+"/bounds", st.pos, an.Discharged, fmt.Sprintf("%d of %d constructs proved; %d not decided by the prover — reviewed: %s", st.proved, st.total, und, rev.reason), st.failures...)
+		case und == 0:
+			o := r.Ob("C04.B1r", k+"/bounds", st.pos, an.Discharged, fmt.Sprintf("%d constructs examined; %d inequalities not decided by the prover (reviewed allowances by package and shape)", st.total, len(st.reviewed)), st.reviewed...)
 			o.Nontrivial = false
 		default:
-			r.Check(false, "C04.B1", k+"/bounds", st.pos, fmt.Sprintf("%d of %d constructs cannot be shown to stay within bounds (reviewed allowance %d)", und, st.total, rev.n), st.failures...)
+			r.Check(false, "C04.B1", k+"/bounds", st.pos, fmt.Sprintf("%d of %d constructs cannot be shown to stay within bounds", und, st.total), append(st.failures, st.reviewed...)...)
 		}
 	}
 	r.Analysed["bounds constructs"] = len(sites)
